@@ -10,7 +10,7 @@ from ..core import viol
 from ..gen import rbytes
 
 RULE = ("chains with every script type, non-monotonic timestamps (gaps clamped to 0), ties for both maxima (first wins), several coinbase-"
-        "shaped transactions per block, coinbase first-output above/below/equal the subsidy at halving boundaries (sparse windows around "
+        "shaped transactions and near-coinbase look-alikes per block, coinbase first-output above/below/equal the subsidy at halving boundaries (sparse windows around "
         "heights 210000*k), timestamp gaps whose sum exceeds 2^32, segwit txs (witness-stripped size), x 8 coins x ranges, on debug and "
         "release builds: the real simplestats report is parsed (type table as a set) and every figure compared with exact rational "
         "recomputation rendered at the printed precision. Plus utils::get_mean on random u32 multisets (incl. sums > 2^32) through the "
@@ -58,6 +58,16 @@ def build(spec):
             for _ in range(rng.randint(1, 2)):
                 txs.insert(rng.randint(0, len(txs)), Tx(1, [TxIn(ZERO32, 0xFFFFFFFF, rbytes(rng, 4), 0xFFFFFFFF)],
                                                           [TxOut(rng.choice([reward + 5, reward, 3]), gen.std_script(rng, coin, "p2pkh"))], 0))
+        if kind == "multi-coinbase" or rng.random() < 0.3:
+            # near-coinbase transactions that must NOT count towards the fees: null txid with another index, index
+            # 0xffffffff with a real txid, two inputs of which the first is the null outpoint
+            big = reward + rng.randint(1, 10**6)
+            near = [Tx(1, [TxIn(ZERO32, rng.choice([0, 1, 0xFFFFFFFE]), b"", 0xFFFFFFFF)], [TxOut(big, gen.std_script(rng, coin, "p2pkh"))], 0),
+                    Tx(1, [TxIn(rbytes(rng, 32), 0xFFFFFFFF, b"", 0xFFFFFFFF)], [TxOut(big, gen.std_script(rng, coin, "p2pkh"))], 0),
+                    Tx(1, [TxIn(ZERO32, 0xFFFFFFFF, b"", 0xFFFFFFFF), TxIn(rbytes(rng, 32), 0, b"", 0)], [TxOut(big, gen.std_script(rng, coin, "p2pkh"))], 0)]
+            for t_ in near:
+                if rng.random() < 0.7:
+                    txs.insert(rng.randint(0, len(txs)), t_)
         cb.add_block(txs=txs, time=t, coinbase_outs=cb_outs)
     return cb.chain()
 
